@@ -8,6 +8,7 @@ from . import rules_kernels as RK
 from . import rules_effects as RF
 from . import rules_exc as RE
 from . import rules_poly as RP
+from . import rules_serial as RSER
 from . import rules_shapes as RS
 from .report import Ctx
 
@@ -29,12 +30,16 @@ def c01(ctx: Ctx) -> None:
     RA.rule_soundness(ctx, RA.POLY, ["compose"])
     RK.rule_term_kernels(ctx, ["multiply", "add", "remove", "substitute", "isolate"])
     RP.rule_dispatcher(ctx)
+    RP.rule_transform(ctx)
     RA.rule_forwarding(ctx)
     RA.rule_default_orders(ctx)
 
 
 def c02(ctx: Ctx) -> None:
     RA.rule_soundness(ctx, RA.POLY, ["quotient"])
+    RK.rule_term_kernels(ctx, ["multiply", "add", "remove", "substitute", "isolate"])
+    RP.rule_dispatcher(ctx)
+    RP.rule_transform(ctx)
     RA.rule_forwarding(ctx)
     RA.rule_default_orders(ctx)
 
@@ -78,6 +83,7 @@ def c04(ctx: Ctx) -> None:
     RP.rule_polarity(ctx, P + "_tactic_2", "refine", True, "constant-decrement")
     RP.rule_polarity(ctx, P + "_get_tlp_context", "refine", True, "none")
     RP.rule_tactic4_sign(ctx)
+    RP.rule_kaykobad_guards(ctx)
     RK.rule_term_kernels(ctx, ["multiply", "add", "remove", "substitute", "isolate", "copy"])
     RP.rule_lp_bounds(ctx)
 
@@ -107,6 +113,15 @@ def c12(ctx: Ctx) -> None:
     RP.rule_polarity(ctx, P + "optimize", "maximize", True, "return")
     RP.rule_get_variable_bounds(ctx)
     RP.rule_lp_bounds(ctx)
+
+
+def c10(ctx: Ctx) -> None:
+    RSER.rule_dict_tables(ctx)
+    RSER.rule_machine_exact(ctx)
+    RSER.rule_file_tags(ctx)
+    RSER.rule_number_format(ctx)
+    RSER.rule_printer_shape(ctx)
+    RE.rule_validator_covers(ctx)
 
 
 def c13(ctx: Ctx) -> None:
@@ -183,7 +198,7 @@ def run_property(ctx: Ctx) -> None:
     spec = PROPS[ctx.prop]
     spec["fn"](ctx)
 
-_tmp = {"C01": c01, "C02": c02, "C03": c03, "C04": c04, "C06": c06, "C07": c07, "C08": c08, "C11": c11, "C12": c12, "C13": c13, "C14": c14, "C15": c15, "C16": c16, "C17": c17, "C19": c19}
+_tmp = {"C10": c10, "C01": c01, "C02": c02, "C03": c03, "C04": c04, "C06": c06, "C07": c07, "C08": c08, "C11": c11, "C12": c12, "C13": c13, "C14": c14, "C15": c15, "C16": c16, "C17": c17, "C19": c19}
 for _k, _f in _tmp.items():
     PROPS[_k] = {"fn": _f, "level": "other", "explanation": "tbd", "assumptions": []}
 
